@@ -892,10 +892,7 @@ func (c *client) maybeOverrideUnsupportedWriteConsistency(isSelect bool, raw *fr
 					zap.Stringer("unsupported", m.Consistency),
 					zap.Stringer("override", overrideConsistency))
 				m.Consistency = overrideConsistency
-				return &frame.Frame{
-					Header: raw.Header,
-					Body:   body,
-				}
+				return c.reencode(raw, body)
 			} else {
 				c.proxy.logger.Debug("no override required for execute write consistency",
 					zap.Stringer("request", m),
@@ -908,10 +905,7 @@ func (c *client) maybeOverrideUnsupportedWriteConsistency(isSelect bool, raw *fr
 					zap.Stringer("unsupported", m.Consistency),
 					zap.Stringer("override", overrideConsistency))
 				m.Consistency = overrideConsistency
-				return &frame.Frame{
-					Header: raw.Header,
-					Body:   body,
-				}
+				return c.reencode(raw, body)
 			} else {
 				c.proxy.logger.Debug("no override required for query write consistency",
 					zap.Stringer("request", m),
@@ -924,10 +918,7 @@ func (c *client) maybeOverrideUnsupportedWriteConsistency(isSelect bool, raw *fr
 					zap.Stringer("unsupported", m.Consistency),
 					zap.Stringer("override", overrideConsistency))
 				m.Consistency = overrideConsistency
-				return &frame.Frame{
-					Header: raw.Header,
-					Body:   body,
-				}
+				return c.reencode(raw, body)
 			} else {
 				c.proxy.logger.Debug("no override required for batch write consistency",
 					zap.Stringer("request", m),
@@ -937,6 +928,22 @@ func (c *client) maybeOverrideUnsupportedWriteConsistency(isSelect bool, raw *fr
 	}
 
 	return raw
+}
+
+// reencode turns the modified body back into a raw frame. The body length is taken from the bytes actually
+// encoded: encoding a `frame.Frame` that carries the client's request header would instead add the size of a
+// tracing ID whenever the client asked for tracing, which only responses contain.
+func (c *client) reencode(raw *frame.RawFrame, body *frame.Body) interface{} {
+	frm := &frame.Frame{
+		Header: raw.Header,
+		Body:   body,
+	}
+	if converted, err := c.codec.ConvertToRawFrame(frm); err == nil {
+		return converted
+	} else {
+		c.proxy.logger.Error("unable to re-encode request after overriding its consistency", zap.Error(err))
+		return frm
+	}
 }
 
 func (c *client) isUnsupportedWriteConsistency(consistency primitive.ConsistencyLevel) bool {
